@@ -101,6 +101,28 @@ def malformed(rng):
         return b"\xbf" + gen_item(rng, 1) + b"\xff"
     return bytes(rng.randrange(256) for _ in range(rng.randrange(1, 8)))
 
+def large_cases(rng):
+    """containers and strings around the decoder's pre-allocation / chunk size (4096) and well beyond it"""
+    out = []
+    for n in (4095, 4096, 4097, 5000, 8193, 20000):
+        elems = bytes(rng.choice([0x00, 0x17, 0x20, 0xf6, 0x60]) for _ in range(n))
+        out.append(("large-array-def", head(rng, 4, n, force=2) + elems + b"\x61z"))          # trailing sibling bytes
+        out.append(("large-array-def", b"\x82" + head(rng, 4, n, force=2) + elems + b"\x61z"))  # nested: next sibling must still be found
+        out.append(("large-array-indef", b"\x9f" + elems + b"\xff"))
+        pairs = b"".join(bytes([0x00, 0x01]) for _ in range(n))
+        out.append(("large-map-def", b"\x82" + head(rng, 5, n, force=2) + pairs + b"\x61z"))
+        out.append(("large-map-def", head(rng, 5, n, force=4) + pairs))
+        out.append(("large-map-indef", b"\xbf" + pairs + b"\xff"))
+        data = bytes(rng.randrange(0x20, 0x7f) for _ in range(n))
+        out.append(("large-bytes", b"\x82" + head(rng, 2, n, force=2) + data + b"\x01"))
+        out.append(("large-text", b"\x82" + head(rng, 3, n, force=2) + data + b"\x01"))
+        out.append(("large-text-truncated", head(rng, 3, n, force=2) + data[:-1]))
+        # a multi-byte character straddling the 4096-byte chunk boundary of the reader
+        t = b"a" * 4095 + "é".encode() + b"b" * (n - 4095 if n > 4097 else 3)
+        out.append(("large-text-utf8-boundary", head(rng, 3, len(t), force=2) + t))
+    return out
+
+
 def classify(bs):
     if not bs:
         return "empty"
@@ -145,7 +167,7 @@ def run(tier, seed):
         sweep_lines += ["DSWEEP\t%02x\t2" % b for b in range(256)]          # all 3-byte strings
     else:
         sweep_lines += ["DSWEEP\tf9\t2", "DSWEEP\tf8\t1", "DSWEEP\t9f\t2", "DSWEEP\t5f\t2", "DSWEEP\t7f\t2", "DSWEEP\tbf\t2"]
-    cases = [("corpus", bytes.fromhex(h)) for h in CORPUS] + gen_cases(rng, n_struct)
+    cases = [("corpus", bytes.fromhex(h)) for h in CORPUS] + large_cases(rng) + gen_cases(rng, n_struct)
     lines = ["D\t" + c[1].hex() for c in cases]
     impl_s = common.run_tool(drv, sweep_lines, multi=True)
     orc_s = common.run_tool(orc, sweep_lines, multi=True)
@@ -196,7 +218,7 @@ def run(tier, seed):
             else:
                 res.notes.append("finding %s apparently repaired: f6 -> %s, f7 -> %s" % (kf["id"], a6, a7))
     # vm_compute slice: guards extraction
-    sl = rng.sample(cases, 150) + cases[:len(CORPUS)]
+    sl = rng.sample([c for c in cases if len(c[1]) < 200], 150) + cases[:len(CORPUS)]
     vm = common.vm_compute_slice(PROP, "From Cddl Require Import Base.Bytes Cbor.Wire.",
                                  ["decode_render " + common.coq_list(list(c[1])) for c in sl])
     orc_sl = common.run_tool(orc, ["D\t" + c[1].hex() for c in sl], shards=1)
@@ -215,7 +237,7 @@ def run(tier, seed):
         "exhaustive_scope": [l.replace("\t", " ") for l in sweep_lines],
         "class_histogram": hist, "verdict_split": verdicts, "error_kinds": errkinds,
         "vm_compute_slice": len(sl),
-        "samples": [{"input_hex": c[1].hex(), "class": c[0], "impl": a} for c, a in list(zip(cases, impl))[len(CORPUS):len(CORPUS) + 6]],
+        "samples": [{"input_hex": c[1].hex()[:200], "class": c[0], "impl": a[:120]} for c, a in list(zip(cases, impl)) if len(c[1]) < 100][len(CORPUS):len(CORPUS) + 6],
     })
     res.assumptions = ["String::from_utf8 = RFC 3629 validity (Utf8.utf8_valid), checked differentially",
                        "half::f16 -> f64 and f32 -> f64 conversions are exact (Wire.widen), checked on all binary16 patterns each run"]
